@@ -149,8 +149,8 @@ def _dead_event_branch(idx, mod, node):
     for anc in mod.parents.ancestors(node):
         if isinstance(anc, ast.If) and isinstance(anc.test, ast.Compare) and isinstance(anc.test.ops[0], ast.Is):
             d = dotted(anc.test.comparators[0]) or ""
-            if d.startswith("Type."):
-                member = d.split(".")[1]
+            if "." in d and d.split(".")[-1].isupper():  # `<enum alias>.MEMBER`, whatever the alias is called
+                member = d.split(".")[-1]
                 break
     if member is None:
         return None
@@ -271,18 +271,26 @@ def rule_buffers(run):
         raise AnalysisError("anchor vanished: EntityTemplate branch of VhdlAssembler.apply")
     t = P.T(br)
     sel = [x for x in ast.walk(br) if isinstance(x, ast.If) and "Port.Direction.OUTPUT" in P.T(x.test)]
-    ok = len(sel) == 1 and src(sel[0].test) in ("port.direction() == Port.Direction.OUTPUT", "port.direction() is Port.Direction.OUTPUT") and "output_ports.append(port)" in P.T(sel[0])
+    ok = len(sel) == 1 and (P.T(sel[0].test) == "port.direction() == Port.Direction.OUTPUT" or P.T(sel[0].test) == "port.direction() is Port.Direction.OUTPUT") and "output_ports.append(port)" in P.T(sel[0])
     run.ob(ok, "VhdlAssembler.apply[EntityTemplate]", file=a.rel, line=(sel[0].lineno if sel else br.lineno), detail="buffered-ports", expected="exactly the OUTPUT ports are buffered (inout ports stay connected directly)", found=src(sel[0].test) if sel else "selection changed")
     ok = "buffer_ports = output_ports" in t
     run.ob(ok, "VhdlAssembler.apply[EntityTemplate]", file=a.rel, line=br.lineno, detail="all-outputs", expected="buffer_ports = output_ports", found="ok" if ok else "changed")
     loop = [l for l in ast.walk(br) if isinstance(l, ast.For) and dotted(l.iter) == "buffer_ports"]
     if not loop:
         raise AnalysisError("buffer loop not found")
-    lt = src(loop[0])
-    for detail, needle in (("buffer-drives-port", "vhdl.SignalAssignment(vhdl.Target(port), vhdl.Value(buffer))"), ("alias", "alias_scope.set_alias(port, buffer)"), ("declared", "arch_scope.declare(buffer)")):
+    lt = P.T(loop[0])
+    # the scope objects, whatever the locals are called
+    al = P.find(br, "__a = vhdl.AliasScope(__arch)")
+    if len(al) != 1:
+        raise AnalysisError("anchor vanished: alias scope construction `x = vhdl.AliasScope(arch_scope)`")
+    alias_name, arch_name = al[0][1]["__a"], al[0][1]["__arch"]
+    ok = P.has(br, "__arch = vhdl.ArchScope(___)", {"__arch": arch_name})
+    run.ob(ok, "VhdlAssembler.apply[EntityTemplate]", file=a.rel, line=al[0][0].lineno, detail="alias-over-arch", expected="alias scope wraps the architecture scope", found="ok" if ok else "changed")
+    pv = loop[0].target.id if isinstance(loop[0].target, ast.Name) else "port"
+    for detail, needle in (("buffer-drives-port", f"vhdl.SignalAssignment(vhdl.Target({pv}), vhdl.Value(buffer))"), ("alias", f"{alias_name}.set_alias({pv}, buffer)"), ("declared", f"{arch_name}.declare(buffer)")):
         run.ob(needle in lt, "VhdlAssembler.apply[EntityTemplate]", file=a.rel, line=loop[0].lineno, detail=detail, expected=needle, found="ok" if needle in lt else "missing")
     subs = [c for c in ast.walk(br) if isinstance(c, ast.Call) and dotted(c.func) == "self.apply" and any(k.arg is None for k in c.keywords)]
-    n_alias = sum(1 for c in subs if "'parent_scope': alias_scope" in P.T(c))
+    n_alias = sum(1 for c in subs if f"'parent_scope': {alias_name}" in src(c))
     run.ob(len(subs) >= 2 and n_alias == len(subs), "VhdlAssembler.apply[EntityTemplate]", file=a.rel, line=br.lineno, detail="assembled-under-alias-scope",
            expected="every sub-block and context is assembled with parent_scope=alias_scope", found=f"{n_alias}/{len(subs)}")
     m = run.idx.mod(VH)
